@@ -11,9 +11,9 @@ bool check_update_item(T item) __CPROVER_assigns() __CPROVER_ensures(__CPROVER_r
 #define HAS_EXTREMES(s) ((s)->n_ > 0 ==> ((s)->min_item_.has && (s)->max_item_.has && (s)->min_item_.v <= (s)->max_item_.v))
 #define EXTREMES_AFTER(s, n0) ((s)->min_item_.has && (s)->max_item_.has && (s)->min_item_.v == ((n0) == 0 ? item : (item < g_min0 ? item : g_min0)) && (s)->max_item_.v == ((n0) == 0 ? item : (g_max0 < item ? item : g_max0)))
 '''
-OPT = [(r"static_cast<const T&>\(item\)", "item", "any"), (r"(?<![\w.>])is_empty\(\)", "xx_is_empty(self)", 1),
-       (r"self->(min|max)_item_\.emplace\(([^;]*)\);", r"self->\1_item_ = (struct optT){true, \2};", 2),
-       (r"\*self->(min|max)_item_", r"self->\1_item_.v", 4)]
+OPT = [(r"static_cast<const T&>\(item\)", "item", "any"), (r"(?<![\w.>])is_empty\(\)", "xx_is_empty(self)", "any"),
+       (r"self->(min|max)_item_\.emplace\(([^;]*)\);", r"self->\1_item_ = (struct optT){true, \2};", "any"),
+       (r"\*self->(min|max)_item_", r"self->\1_item_.v", "any")]
 REQ_PRELUDE = COMMON + r'''
 struct req { uint16_t k_; bool hra_; uint32_t max_nom_size_; uint32_t num_retained_; uint64_t n_; struct optT min_item_; struct optT max_item_; void* sorted_view_; };
 bool xx_is_empty(const struct req* s) __CPROVER_assigns() __CPROVER_ensures(__CPROVER_return_value == (s->n_ == 0));
@@ -58,7 +58,7 @@ void reset_sorted_view(struct qs* self) __CPROVER_assigns(g_reset_calls, self->s
 '''
 q_update = {
     "name": "quantiles_update", "file": QS, "members": QM, "match": r"void quantiles_sketch<T, C, A>::update\(FwdT&& item\)", "sig": "void quantiles_update(struct qs* self, T item)", "nloops": 0,
-    "rules": OPT + [(r"self->base_buffer_\.size\(\)", "self->base_buffer_size", 3), (r"self->base_buffer_\.capacity\(\)", "self->base_buffer_cap", 1),
+    "rules": OPT + [(r"self->base_buffer_\.size\(\)", "self->base_buffer_size", "any"), (r"self->base_buffer_\.capacity\(\)", "self->base_buffer_cap", "any"),
                     (r"self->base_buffer_\.push_back\(std::forward<FwdT>\(item\)\);", "{ g_appended = item; g_append_calls++; g_size_at_push = self->base_buffer_size; g_cap_at_push = self->base_buffer_cap; self->base_buffer_size++; }", 1)],
     "methods": ["grow_base_buffer", "process_full_base_buffer", "reset_sorted_view"],
     "contract": r'''
